@@ -286,6 +286,12 @@ def gen_c14(rng, tier):
         for _ in range(5):
             sh.append({"op": "parse", "text": "\n".join(rand_line(rng) for _ in range(rng.choice([1, 3, 6])))})
         shards.append(sh)
+    # one log whose middle commit has a subject of 70 000 characters (git prints the whole first paragraph of a message on the
+    # header line): every commit is still there, in log order
+    h = rand_history(rng, adversarial=False, n=3)
+    h[1]["Subject"] = "squash " + "wxyz " * 14000
+    text, exp = render_synthetic(rng, h, quoted=False)
+    shards[0].append({"op": "parse", "text": text, "expected": exp})
     return shards
 
 
